@@ -644,21 +644,33 @@ func (s *Sched) Run() {
 					wait = time.Millisecond
 				}
 			}
+			// A task that parks and the end of the wait can fall on the same simulated instant (a deadline inside
+			// the code under test and this timer are both multiples of 50 ms): which select case wins would then
+			// be the runtime's choice. So the select only waits; what happened is read off the state afterwards.
+			liveBefore := s.live
+			until := time.Now().Add(wait)
+			tm := time.NewTimer(wait)
 			select {
 			case t := <-s.parkCh:
 				s.note(t)
-			case <-time.After(wait):
-				if nSleep > 0 {
-					s.tick(minSleep)
-					continue
-				}
-				if !held.IsZero() {
-					continue // a task held back for a while may go on now
-				}
-				s.Deadlock = "stall: no task became runnable within 24 h of simulated time; " + s.Where()
-				s.abortAll()
-				return
+			case <-tm.C:
 			}
+			tm.Stop()
+			synctest.Wait() // whatever woke at this instant has parked, finished or blocked again
+			s.drain()
+			if time.Now().Before(until) || len(s.runnable()) > 0 || s.live != liveBefore {
+				continue // a task moved
+			}
+			if nSleep > 0 {
+				s.tick(minSleep)
+				continue
+			}
+			if !held.IsZero() {
+				continue // a task held back for a while may go on now
+			}
+			s.Deadlock = "stall: no task became runnable within 24 h of simulated time; " + s.Where()
+			s.abortAll()
+			return
 		default:
 			if held := s.timeStalled(); !held.IsZero() {
 				if d := time.Until(held); d > 0 {
